@@ -81,6 +81,7 @@ func stressAdapterLeaks(seed int64, scale int) int {
 	var pairMu sync.Mutex
 	var pairWait chan struct{}
 	var conns sync.Map // server-side connections that are not closed
+	var hrCalls sync.Map
 	srv := httptest.NewUnstartedServer(http.HandlerFunc(func(w http.ResponseWriter, r *http.Request) {
 		io.Copy(io.Discard, r.Body)
 		k := n.Add(1)
@@ -119,6 +120,22 @@ func stressAdapterLeaks(seed int64, scale int) int {
 				case <-r.Context().Done():
 				case <-time.After(30 * time.Millisecond):
 				}
+			}
+		case "hr":
+			// hedge around retry: the first attempt of a call is held until it is abandoned; on the hedge branch the first
+			// attempt is told to retry and the second one succeeds (and wins)
+			c, _ := hrCalls.LoadOrStore(r.URL.Query().Get("call"), new(atomic.Int32))
+			switch c.(*atomic.Int32).Add(1) {
+			case 1:
+				select {
+				case <-r.Context().Done():
+				case <-time.After(300 * time.Millisecond):
+				}
+			case 2:
+				w.Header().Set("Retry-After", "0")
+				w.WriteHeader(503)
+				w.Write([]byte("unavailable, try again"))
+				return
 			}
 		case "fail":
 			w.WriteHeader(500)
@@ -203,6 +220,34 @@ func stressAdapterLeaks(seed int64, scale int) int {
 	}
 	longLived := customCtx{make(chan struct{})}
 	defer close(longLived.done)
+	// a hedge policy around the retry policy: the attempts a hedge branch retries are that branch's own previous attempts, and
+	// their responses have to be closed like any other retried response
+	for i := 0; i < runs/6; i++ {
+		ex := failsafe.NewExecutor[*http.Response](hedgepolicy.BuilderWithDelay[*http.Response](2*time.Millisecond).Build(),
+			failsafehttp.RetryPolicyBuilder().WithMaxRetries(2).Build())
+		req, _ := http.NewRequestWithContext(callerCtx, "POST", fmt.Sprintf("%s/?mode=hr&call=%d", srv.URL, i), strings.NewReader("request-body"))
+		resp, err := (&http.Client{Transport: failsafehttp.NewRoundTripperWithExecutor(cth, ex)}).Do(req)
+		if err != nil || resp == nil || resp.StatusCode != 200 {
+			v.add(fmt.Sprintf("hedge around retry: the hedge branch's second attempt succeeds, yet the call returned %v", err))
+		}
+		if resp != nil && resp.Body != nil {
+			io.Copy(io.Discard, resp.Body)
+			resp.Body.Close()
+		}
+		v.count("http/hedge-around-retry")
+	}
+	// response bodies whose Close reports an error (a wrapping transport may do that): the attempt's context is released all
+	// the same, also when it had to be merged from a context of a non-standard type
+	for i := 0; i < runs/6; i++ {
+		ex := failsafe.NewExecutor[*http.Response](failsafehttp.RetryPolicyBuilder().WithMaxRetries(3).Build()).WithContext(longLived)
+		req, _ := http.NewRequestWithContext(callerCtx, "POST", srv.URL+"/?mode=flaky", strings.NewReader("request-body"))
+		resp, _ := (&http.Client{Transport: failsafehttp.NewRoundTripperWithExecutor(closeErrTransport{ct}, ex)}).Do(req)
+		if resp != nil && resp.Body != nil {
+			io.Copy(io.Discard, resp.Body)
+			resp.Body.Close()
+		}
+		v.count("http/close-reports-error")
+	}
 	// the caller gives up while an attempt is in flight (or before the returned body is closed), under an executor bound to a
 	// long-lived context of a non-standard type: whatever the merger registered on that context must be detached again
 	for i := 0; i < runs/2; i++ {
@@ -325,6 +370,24 @@ func stressAdapterLeaks(seed int64, scale int) int {
 	callerCancel()
 	execCancel()
 	return v.report("adapterleaks", 2*runs)
+}
+
+// closeErrTransport: every response body's Close does its work and then reports an error
+type closeErrTransport struct{ next http.RoundTripper }
+
+type closeErrBody struct{ io.ReadCloser }
+
+func (b closeErrBody) Close() error {
+	b.ReadCloser.Close()
+	return errors.New("close: reported by the transport")
+}
+
+func (t closeErrTransport) RoundTrip(r *http.Request) (*http.Response, error) {
+	resp, err := t.next.RoundTrip(r)
+	if err == nil && resp != nil && resp.Body != nil {
+		resp.Body = closeErrBody{resp.Body}
+	}
+	return resp, err
 }
 
 // customCtx is a context of a type the standard library does not know: propagation to or from it needs a goroutine.
